@@ -160,6 +160,10 @@ pub fn run_prop(prop: &dyn Prop, tier: Tier, seed: u64) -> i32 {
             ChildEnd::Exit(0) => {
                 println!("note: known finding {} no longer reproduces on this tree", f.id)
             }
+            // the witness of an abort / hang finding kills or stalls its replay process
+            ChildEnd::Signal(_) | ChildEnd::Timeout => {
+                known_lines.push(format!("KNOWN-FINDING: property={} {} [{}]", id, f.what, f.id))
+            }
             _ => infra_errors.push(format!("witness replay of {} failed to run", f.id)),
         }
     }
